@@ -234,6 +234,12 @@ def check(ctx):
         for kind, desc in probs:
             ctx.count('viol_' + kind)
             k = kind + ('|kill-%s' % locus if is_kill else '')
+            if is_kill:
+                # what the user did between the killed run and the next one belongs to the root cause: a leftover that makes the next run
+                # overwrite the backup is another defect than one that makes it skip the backup of a fresh edit
+                ki = next(i for i, o in enumerate(h) if o[0] == 'k')
+                nxt = h[ki + 1] if ki + 1 < len(h) else ''
+                k += '|then-' + ('run' if nxt.startswith('r') else 'same-write' if nxt == 'wS' else 'edit')
             ctx.count('kill_locus_' + str(locus)) if is_kill else None
             if k not in first or len(h) < len(first[k][0]):
                 first[k] = (h, desc, log)
